@@ -276,8 +276,13 @@ def cfgSwStopInl : Config := ⟨[none, none], [true, true], true⟩
 /-- the source completes with a value on T1, the trigger only from inside its stop callback, T3 stops. -/
 def cfgSwMix : Config := ⟨[some .value, none], [false, true], true⟩
 
+/-- source and trigger race, no external stop. -/
+def cfgSwRace : Config := ⟨[some .value, some .value], [false, false], false⟩
+/-- the trigger fires on T2, the source completes inside its stop callback, T3 requests stop. -/
+def cfgSwTrgStop : Config := ⟨[none, some .value], [true, false], true⟩
+
 def configs : List (String × Config) :=
   [("sw_stop", cfgSwStop), ("sw_trigger", cfgSwTrigger), ("sw_src_err", cfgSwSrcErr),
-   ("sw_stop_inl", cfgSwStopInl), ("sw_mix", cfgSwMix)]
+   ("sw_stop_inl", cfgSwStopInl), ("sw_mix", cfgSwMix), ("sw_race", cfgSwRace), ("sw_trg_stop", cfgSwTrgStop)]
 
 end Unifex.Proto.StopWhen
